@@ -532,10 +532,16 @@ func c15From(r *Run, su *c15Setup, state string, pre []Action, base []byte, obse
 			_, e := w.K.RemoteTokenMessengers(c, &cctptypes.QueryRemoteTokenMessengersRequest{Pagination: pr})
 			return e
 		},
-		"BurnMessageVersion":  func(c sdk.Context) error { _, e := w.K.BurnMessageVersion(c, &cctptypes.QueryBurnMessageVersionRequest{}); return e },
-		"LocalMessageVersion": func(c sdk.Context) error { _, e := w.K.LocalMessageVersion(c, &cctptypes.QueryLocalMessageVersionRequest{}); return e },
-		"LocalDomain":         func(c sdk.Context) error { _, e := w.K.LocalDomain(c, &cctptypes.QueryLocalDomainRequest{}); return e },
-		"ExportGenesis":       func(c sdk.Context) error { w.ExportCCTP(); return nil },
+		"BurnMessageVersion": func(c sdk.Context) error {
+			_, e := w.K.BurnMessageVersion(c, &cctptypes.QueryBurnMessageVersionRequest{})
+			return e
+		},
+		"LocalMessageVersion": func(c sdk.Context) error {
+			_, e := w.K.LocalMessageVersion(c, &cctptypes.QueryLocalMessageVersionRequest{})
+			return e
+		},
+		"LocalDomain":   func(c sdk.Context) error { _, e := w.K.LocalDomain(c, &cctptypes.QueryLocalDomainRequest{}); return e },
+		"ExportGenesis": func(c sdk.Context) error { w.ExportCCTP(); return nil },
 	}
 	for _, name := range sortedKeys(qs) {
 		w.Rec.Ops = nil
